@@ -239,7 +239,7 @@ func TestSignal(t *testing.T) {
 		}
 		return
 	}
-	maxN := r.Pick(6, 7)
+	maxN := r.Pick(6, 8)
 	var befores [][]int
 	for l := 0; l <= 2; l++ {
 		for i := 0; i < gen.PowInt(3, l); i++ {
@@ -669,7 +669,7 @@ func TestRefresh(t *testing.T) {
 		}
 		return
 	}
-	maxTicks := r.Pick(10, 13)
+	maxTicks := r.Pick(10, 16)
 	var total int64
 	for k := 0; k <= maxTicks; k++ {
 		for v := 0; v < 1<<k; v++ {
